@@ -12,6 +12,8 @@ MCNext == \E g \in Inst :
             \/ \E h \in Inst : Clone(g, h) /\ PrintT(<<"J", St, "clone", g, h, St2>>)
             \/ \E h \in Inst : CloneFrom(g, h) /\ PrintT(<<"J", St, "clone_from", g, h, St2>>)
 MCSpec == Init /\ [][MCNext]_vars
+(* the bounded plan used by the Apalache proof (apalache/APA_JitterApi) is the plan *)
+ASSUME \A p \in BOOLEAN, n \in 0..47 : PlanFillB(p, n) = PlanFill(p, n) /\ PlanFillSetB(p, n) = PlanFillSet(p, n)
 MCInst == {1, 2, 3}
 MCFills == {0, 1, 3, 4, 5, 7, 8, 9, 12, 13, 16, 17}
 =============================================================================
